@@ -1,30 +1,49 @@
 ;; values: XPath 1.0 conversions string()/number()/boolean() (sections 4.2-4.4) on the four value types
 ;; requires: tree
 (declare-fun strval (Cursor) Str)        ; string-value of a node (section 5), characterised in module strval
-(declare-fun xpnum (Str) F64)            ; the number denoted by a string, NaN unless it is an XPath Number with optional whitespace
+(declare-fun xpnum (Str) F64)            ; the number denoted by a string (module strnum): NaN unless S? '-'? Number S?
 (declare-fun fmtf (F64) Str)             ; shortest decimal without exponent that reads back to the same double (strconv 'f', -1)
 (define-fun numStr ((f F64)) Str
   (ite (fp.isNaN f) "NaN" (ite (fp.isInfinite f) (ite (fp.isNegative f) "-Infinity" "Infinity") (ite (fp.isZero f) "0" (fmtf f)))))
-;; first node of a node-set in document order
-;; heapfn: firstDoc firstIdx
-(declare-fun firstDoc (AH_Cursor Slice) Cursor)
-(declare-fun firstIdx (AH_Cursor Slice) Int)
-(assert (forall ((h AH_Cursor) (s Slice)) (! (=> (> (slen_ s) 0)
-   (and (<= 0 (firstIdx h s)) (< (firstIdx h s) (slen_ s)) (= (firstDoc h s) (at_Cursor h s (firstIdx h s)))))
-   :pattern ((firstDoc h s)))))
-(assert (forall ((h AH_Cursor) (s Slice) (k Int)) (! (=> (and (<= 0 k) (< k (slen_ s)))
-   (<= (pos (firstDoc h s)) (pos (at_Cursor h s k))))
-   :pattern ((firstDoc h s) (at_Cursor h s k)))))
-(define-fun toStr ((h AH_Cursor) (v Val)) Str
-  (ite ((_ is VStr) v) (vstr v)
-  (ite ((_ is VBool) v) (ite (vbool v) "true" "false")
-  (ite ((_ is VNum) v) (numStr (vnum v))
-  (ite ((_ is VSet) v) (ite (= (slen_ (vset v)) 0) str_empty (strval (firstDoc h (vset v))))
+;; abstract (heap-independent) node sequences and values
+(declare-sort NSeq 0)
+(declare-fun qlen (NSeq) Int)
+(declare-fun qat (NSeq Int) Cursor)
+(assert (forall ((q NSeq)) (! (>= (qlen q) 0) :pattern ((qlen q)))))
+;; heapfn: seqOf
+(declare-fun seqOf (AH_Cursor Slice) NSeq)
+(assert (forall ((h AH_Cursor) (s Slice)) (! (= (qlen (seqOf h s)) (slen_ s)) :pattern ((seqOf h s)))))
+(assert (forall ((h AH_Cursor) (s Slice) (k Int)) (! (=> (and (<= 0 k) (< k (slen_ s))) (= (qat (seqOf h s) k) (at_Cursor h s k)))
+   :pattern ((qat (seqOf h s) k)) :pattern ((seqOf h s) (at_Cursor h s k)))))
+;; first node of a sequence in document order
+(declare-fun qfirst (NSeq) Cursor)
+(declare-fun qfirstIdx (NSeq) Int)
+(assert (forall ((q NSeq)) (! (=> (> (qlen q) 0) (and (<= 0 (qfirstIdx q)) (< (qfirstIdx q) (qlen q)) (= (qfirst q) (qat q (qfirstIdx q))))) :pattern ((qfirst q)))))
+(assert (forall ((q NSeq) (k Int)) (! (=> (and (<= 0 k) (< k (qlen q))) (<= (pos (qfirst q)) (pos (qat q k)))) :pattern ((qfirst q) (qat q k)))))
+(define-fun firstDoc ((h AH_Cursor) (s Slice)) Cursor (qfirst (seqOf h s)))
+(declare-datatypes ((AVal 0)) (((ANil) (ABool (abool Bool)) (ANum (anum F64)) (AStr (astr Str)) (ASet (aset NSeq)))))
+(define-fun absv ((h AH_Cursor) (v Val)) AVal
+  (ite ((_ is VBool) v) (ABool (vbool v))
+  (ite ((_ is VNum) v) (ANum (vnum v))
+  (ite ((_ is VStr) v) (AStr (vstr v))
+  (ite ((_ is VSet) v) (ASet (seqOf h (vset v))) ANil)))))
+(define-fun atoStr ((a AVal)) Str
+  (ite ((_ is AStr) a) (astr a)
+  (ite ((_ is ABool) a) (ite (abool a) "true" "false")
+  (ite ((_ is ANum) a) (numStr (anum a))
+  (ite ((_ is ASet) a) (ite (= (qlen (aset a)) 0) str_empty (strval (qfirst (aset a))))
        str_empty)))))
-(define-fun toNum ((h AH_Cursor) (v Val)) F64
-  (ite ((_ is VNum) v) (vnum v)
-  (ite ((_ is VBool) v) (ite (vbool v) ((_ to_fp 11 53) RNE 1.0) ((_ to_fp 11 53) RNE 0.0))
-       (xpnum (toStr h v)))))
+(define-fun atoNum ((a AVal)) F64
+  (ite ((_ is ANum) a) (anum a)
+  (ite ((_ is ABool) a) (ite (abool a) ((_ to_fp 11 53) RNE 1.0) ((_ to_fp 11 53) RNE 0.0))
+       (xpnum (atoStr a)))))
+(define-fun atoBool ((a AVal)) Bool
+  (ite ((_ is ABool) a) (abool a)
+  (ite ((_ is ANum) a) (and (not (fp.isNaN (anum a))) (not (fp.isZero (anum a))))
+  (ite ((_ is AStr) a) (> (slen (astr a)) 0)
+  (ite ((_ is ASet) a) (> (qlen (aset a)) 0) false)))))
+(define-fun toStr ((h AH_Cursor) (v Val)) Str (atoStr (absv h v)))
+(define-fun toNum ((h AH_Cursor) (v Val)) F64 (atoNum (absv h v)))
 (define-fun toBool ((v Val)) Bool
   (ite ((_ is VBool) v) (vbool v)
   (ite ((_ is VNum) v) (and (not (fp.isNaN (vnum v))) (not (fp.isZero (vnum v))))
@@ -34,3 +53,9 @@
 (define-sort AH_Val () (Array Int (Array Int Val)))
 (define-fun okargs ((h AH_Val) (s Slice)) Bool
   (forall ((k Int)) (! (=> (and (<= 0 k) (< k (slen_ s))) (not (= (at_Val h s k) VNil))) :pattern ((at_Val h s k)))))
+;; sum(): left fold of IEEE addition over number(string-value) of the nodes, starting from +0
+;; heapfn: fsum
+(declare-fun fsum (AH_Cursor Slice Int) F64)
+(assert (forall ((h AH_Cursor) (s Slice)) (! (= (fsum h s 0) ((_ to_fp 11 53) RNE 0.0)) :pattern ((fsum h s 0)))))
+(assert (forall ((h AH_Cursor) (s Slice) (k Int)) (! (=> (and (<= 0 k) (< k (slen_ s)))
+   (= (fsum h s (+ k 1)) (fp.add RNE (fsum h s k) (xpnum (strval (at_Cursor h s k)))))) :pattern ((fsum h s (+ k 1))) :pattern ((fsum h s k) (at_Cursor h s k)))))
